@@ -184,6 +184,33 @@ def ofBits32 (bits : Nat) : Option Rat :=
                      else ((2 ^ 23 + man : Nat) : Rat) * pow2 ((ex : Int) - 150)
     some (if sign = 1 then -mag else mag)
 
+/-! ### canonical representation (what `canonicalInteger` / `canonicalRational` of pkg/cl/number.go build) -/
+
+/-- the three exact representations of slip: `Fixnum`, `*Bignum`, `*Ratio` -/
+inductive Rep where
+  | fix (i : Int)
+  | big (i : Int)
+  | ratio (r : Rat)
+  deriving DecidableEq
+
+namespace Rep
+/-- the exact value a representation stands for -/
+def value : Rep → Rat
+  | .fix i => (i : Rat)
+  | .big i => (i : Rat)
+  | .ratio r => r
+/-- the type slip reports for it -/
+def tag : Rep → String
+  | .fix _ => "fixnum"
+  | .big _ => "bignum"
+  | .ratio _ => "ratio"
+end Rep
+
+/-- `canonicalInteger`: fixnum if `IsInt64`, else bignum -/
+def canonInt (i : Int) : Rep := if isFix i then .fix i else .big i
+/-- `canonicalRational`: an integer if `IsInt`, else a ratio -/
+def canonRat (r : Rat) : Rep := if r.den = 1 then canonInt r.num else .ratio r
+
 /-! ### Impl layer: Go's int64 arithmetic, transcribed -/
 
 namespace Impl
@@ -192,29 +219,86 @@ namespace Impl
 def wrap64 (i : Int) : Int :=
   (i + 9223372036854775808) % 18446744073709551616 - 9223372036854775808
 
+/-- the int64 range as a proposition -/
+def inRange (a : Int) : Prop := -9223372036854775808 ≤ a ∧ a ≤ 9223372036854775807
+
 def addFix (a b : Int) : Int := wrap64 (a + b)
 def subFix (a b : Int) : Int := wrap64 (a - b)
 def mulFix (a b : Int) : Int := wrap64 (a * b)
 def negFix (a : Int) : Int := wrap64 (-a)
 
-/-- the overflow test a checked fixnum addition uses: exact iff this holds -/
-def addOk (a b : Int) : Bool :=
-  let c := addFix a b
-  decide (c > a) == decide (b > 0) || b == 0
-
-/-- checked addition as the repaired code performs it: fixnum result when exact, otherwise the
-    exact (bignum) sum -/
-def addChecked (a b : Int) : Int := if addOk a b then addFix a b else a + b
-
-/-- Go's truncated `/` and `%` on int64 (operands in range, divisor non-zero, not MinInt by -1) -/
-def quoFix (a b : Int) : Int := Int.tdiv a b
+/-- Go's truncated `/` and `%` on int64 (divisor non-zero); `/` wraps for MinInt64 / -1 -/
+def quoFix (a b : Int) : Int := wrap64 (Int.tdiv a b)
 def remFix (a b : Int) : Int := Int.tmod a b
 
-/-- fixnum branch of `floor` as a correct implementation must compute it from Go's `/`, `%` -/
+/-- `addFixnums` (pkg/cl/number.go): `sum := x + y; overflow iff (x < sum) != (0 < y)` -/
+def addOk (a b : Int) : Bool := decide (a < addFix a b) == decide (0 < b)
+def addFixnums (a b : Int) : Rep := if addOk a b then .fix (addFix a b) else .big (a + b)
+
+/-- `subFixnums`: `dif := x - y; overflow iff (dif < x) != (0 < y)` -/
+def subOk (a b : Int) : Bool := decide (subFix a b < a) == decide (0 < b)
+def subFixnums (a b : Int) : Rep := if subOk a b then .fix (subFix a b) else .big (a - b)
+
+/-- `mulFixnums`: `p := x * y; overflow iff x != 0 && (p/x != y || (x == -1 && y == MinInt64))` -/
+def mulOk (a b : Int) : Bool :=
+  !(a != 0 && (quoFix (mulFix a b) a != b || (a == -1 && b == minFix)))
+def mulFixnums (a b : Int) : Rep := if mulOk a b then .fix (mulFix a b) else .big (a * b)
+
+/-- `negFixnum`: the most negative fixnum is negated as a bignum -/
+def negFixnum (a : Int) : Rep := if a = minFix then .big (-a) else .fix (negFix a)
+
+/-- checked addition (value only), kept for the theorems of the first round -/
+def addChecked (a b : Int) : Int := if addOk a b then addFix a b else a + b
+
+/-- fixnum branch of `floor` as a correct implementation computes it from Go's `/`, `%` -/
 def floorFix (a b : Int) : Int × Int :=
-  let q := quoFix a b
-  let r := remFix a b
+  let q := Int.tdiv a b
+  let r := Int.tmod a b
   if r ≠ 0 ∧ ((r < 0) ≠ (b < 0)) then (q - 1, r + b) else (q, r)
+
+/-- fixnum branch of `floor` as pkg/cl/floor.go has it (the adjustment for a negative divisor is
+    pinned by test/cl/floor_test.go and is a known finding) -/
+def floorFixGo (a b : Int) : Int × Int :=
+  let q := Int.tdiv a b
+  let r := a - q * b
+  if 0 < b then (if r < 0 then (q - 1, r + b) else (q, r))
+  else (if r < 0 then (q + 1, r - b) else (q, r))
+
+/-- fixnum branch of `ceiling` (pkg/cl/ceiling.go) -/
+def ceilFixGo (a b : Int) : Int × Int :=
+  let q := Int.tdiv a b
+  let r := a - q * b
+  if 0 < b then (if 0 < r then (q + 1, r - b) else (q, r))
+  else (if r < 0 then (q + 1, r - b) else (q, r))
+
+/-- fixnum branch of `truncate` (pkg/cl/truncate.go) -/
+def truncFixGo (a b : Int) : Int × Int :=
+  let q := Int.tdiv a b
+  (q, a - q * b)
+
+/-- `round` on magnitudes (pkg/cl/round.go after the fix): truncate, then round up when the
+    remainder exceeds the rest of the divisor or on a tie with an odd quotient -/
+def roundMag (n d : Int) : Int × Int :=
+  let q := Int.tdiv n d
+  let r := n - q * d
+  let rest := d - r
+  if rest < r ∨ (rest = r ∧ q % 2 ≠ 0) then (q + 1, r - d) else (q, r)
+
+/-- fixnum branch of `round`: exact quotients return at once, otherwise `roundMag` on the
+    magnitudes and then the signs (quotient negated iff the signs differ, remainder has the sign
+    of the dividend) -/
+def roundFixGo (a b : Int) : Int × Int :=
+  let q0 := Int.tdiv a b
+  let r0 := a - q0 * b
+  if r0 = 0 then (q0, 0)
+  else
+    let m := roundMag (if a < 0 then -a else a) (if b < 0 then -b else b)
+    (if (a < 0) ≠ (b < 0) then -m.1 else m.1, if a < 0 then -m.2 else m.2)
+
+/-- fixnum loop of `gcd` (pkg/cl/gcd.go) on non-negative operands, with fuel -/
+def gcdLoop : Nat → Int → Int → Int
+  | 0, x, _ => x
+  | fuel + 1, x, y => if y = 0 then x else gcdLoop fuel y (Int.tmod x y)
 
 end Impl
 
